@@ -2,7 +2,7 @@
 which predicates are evaluated on the implementation's trace, and what is trusted."""
 import collections, hashlib, json, os
 from common import *
-import daemon, preds, trace, hostlist, redfish, speclayer, libpm, config, lexlayer, cbuflayer, seriallayer, listlayer, hashlayer
+import daemon, preds, trace, hostlist, redfish, speclayer, libpm, config, lexlayer, cbuflayer, seriallayer, listlayer, hashlayer, gramlayer
 
 TRUSTED_BASE = [
     'Lean 4.33.0 kernel (thorough tier: re-checked by leanchecker)',
@@ -199,12 +199,12 @@ PROPS['C10'] = dict(layers=[D(P.p_c10, profile=dict(storm=0.003)), listlayer.Lis
 PROPS['C12'] = dict(refines=[(r'^O RXMISMATCH', 'after the failure the pending action is not executed again as its script prescribes from the first statement on: the real interpreter evaluates another pattern than the reference program at this point of this input (C12_restart, C12_rewind_initial, C08_refines)'), (r'^(Y write [23]\d\d\d |O dev \d+ to )', 'what is sent to the device after a failure is not what the pending scripts prescribe when executed again from their first statement (C12_restart, C12_rewind_initial: the rewound action abstracts to its whole script)'), (r'^(O dev \d+ conn|Y socket|Y connect)', 'the connection attempts are not those the back-off schedule and the connection layer prescribe for this input (C12_no_attempt_within_backoff, C12_backoff_one_second, C12_ioerr)')], layers=[D(P.p_c12, P.p_c12_disconnect, P.p_c04, P.p_c02_c03, profile=dict(pF6=0.02, calm=0.3, dead=0.004))], planned=['C12_ioerr', 'C12_recover_partial'])
 PROPS['C13'] = dict(layers=[config.ConfigLayer()], planned=['C13_listings at daemon level (nodes / device replies) — the replies themselves are mirrored in Pm.Daemon and compared on every run'])
 PROPS['C14'] = dict(layers=[hostlist.HostlistLayer()], planned=['C14_roundtrip', 'C14_sort_perm', 'C14_three_hops'])
-PROPS['C18'] = dict(layers=[lexlayer.LexLayer(), config.ConfigLayer(prop='C18')], planned=['the flex/bison automata, malloc and regcomp are not modelled: their memory safety on arbitrary input is observed under ASan/UBSan by the whole-file fuzz of this layer, not proved'])
+PROPS['C18'] = dict(layers=[lexlayer.LexLayer(), config.ConfigLayer(prop='C18'), gramlayer.GrammarLayer()], planned=['the flex/bison automata, malloc and regcomp are not modelled: their memory safety on arbitrary input is observed under ASan/UBSan by the whole-file fuzz of this layer, not proved'])
 PROPS['C19'] = dict(layers=[redfish.RedfishLayer()], planned=['C19_bad_input (setplugs argument checks, malformed ranges) on a model of the command parser'])
 PROPS['C20'] = dict(layers=[D(P.p_c20, profile=dict(pF6=0.02, maxclients=6), leaks=True, deaths=shutdown_deaths)], planned=['C20_refcount', 'C20_objects', 'C20_shutdown (signal path / teardown not modelled yet)'])
 PROPS['C15'] = dict(layers=[D(P.p_c15, P.p_c04, P.p_c04_quit, profile=dict(garbage=0.06, maxclients=6, burst=0.01))], planned=['client output beyond the 1 MiB buffer: the model never drops client output (the property carries that proviso; cbuf_write overwrites the oldest unsent bytes in C)', 'configuration strings with CR/LF escapes are outside `Good` (as coded: observation)'])
 PROPS['C16'] = dict(layers=[libpm.LibPmLayer()], planned=['memory safety of the remaining C is observed under ASan, not proved'])
-PROPS['C17'] = dict(layers=[speclayer.SpecLayer(), D(P.p_c08, P.p_c17_sends, profile=dict(faults=0.5))], planned=['the flat reference program has no contexts: soundness is stated over the ExecCtx machine (Reach) and tied to it by C08_pass_is_run'])
+PROPS['C17'] = dict(layers=[speclayer.SpecLayer(), D(P.p_c08, P.p_c17_sends, profile=dict(faults=0.5)), gramlayer.GrammarLayer(prop='C17', quick=((2, 100), (3, 120), (1, 3), (1, 0), (1, 200)), thorough=((8, 300), (12, 300), (4, 10), (1, 0), (4, 0)))], planned=['the flat reference program has no contexts: soundness is stated over the ExecCtx machine (Reach) and tied to it by C08_pass_is_run'])
 PROPS['C11'] = dict(refines=[(r'^(C \d+ |A \d+ |Y write 1\d\d\d )', "a client's record, result cells or output are not what its own request and its own actions determine (C11_routing, C11_result_scope)")], layers=[D(P.p_c11, P.p_c11_events, P.p_c11_tele, P.p_f23, profile=dict(maxclients=6, burst=0.005))], planned=['C11_backpressure with the EAGAIN variant while the stuck client keeps sending', 'id wrap (F17) is outside the unbounded-Nat model'])
 
 
